@@ -45,7 +45,21 @@ def check_normaliser(ctx, F, path, ws, delims, inst):
                     false_t = [tgt for v, tgt in t[2] if v == "0"]
                     if false_t:
                         tests.append((c, sb_, false_t[0], t[3]))
-    transforming = [c for c in b.calls() if id_through(c) is None and c.path.rsplit("::", 1)[-1] not in ("contains", "find", "any", "is_empty", "len")]
+    def _inspect_only(c):
+        # `s.chars().any(pred)`: an iterator that only feeds a containment test inspects, it does not transform
+        if c.path.rsplit("::", 1)[-1] not in ("chars", "bytes", "char_indices", "iter"):
+            return False
+        locs, us = {c.dest[0]}, []
+        for _ in range(3):
+            for l in list(locs):
+                for u in b.uses_of(l):
+                    if u[0] == "stmt" and u[4][0] in ("ref", "use") and not u[3][1]:
+                        locs.add(u[3][0])       # `&mut it` / a move of the iterator
+                    elif u not in us:
+                        us.append(u)
+        us = [u for u in us if not (u[0] == "stmt" and u[4][0] in ("ref", "use"))]
+        return bool(us) and all(u[0] == "call" and u[1].path.rsplit("::", 1)[-1] in ("any", "all", "find", "position", "into_iter") for u in us)
+    transforming = [c for c in b.calls() if id_through(c) is None and c.path.rsplit("::", 1)[-1] not in ("contains", "find", "any", "is_empty", "len") and not _inspect_only(c)]
     for c in transforming:
         m = c.path.rsplit("::", 1)[-1]
         guarded = any(c.bb in b.reachable(ft) and c.bb not in b.reachable(tt) and b.dominates(sb, c.bb) for (_, sb, ft, tt) in tests)
@@ -150,7 +164,7 @@ def run(ctx, F, cg):
                 # R03c: find Ok(clone(payload)) returned
                 hit = False
                 for i, j, pl, rv, line, exp in b.stmts():
-                    if pl[0] == 0 and rv[0] == "agg" and rv[1].endswith("Result::Ok") and rv[2] and rv[2][0][0] != "k":
+                    if pl[0] == 0 and rv[0] == "agg" and (rv[1].endswith("Result::Ok") or rv[1].endswith("Option::Some")) and rv[2] and rv[2][0][0] != "k":
                         og2 = b.origins(rv[2][0][1][0], through_calls=lambda cc: [0] if cc.path.rsplit("::", 1)[-1] in ("clone",) else None)
                         if any(o[0] == "call" and o[1] is c for o in og2) or any(o[0] == "via" for o in og2) and any(o[0] == "call" and o[1].bb == c.bb for o in og2):
                             hit = True
@@ -170,6 +184,20 @@ def run(ctx, F, cg):
                           "field `%s` also stores parsed statements; a second cache/fast path needs the same key discipline as ast_cache" % h)
     else:
         ctx.ok("R03e", "QueryEngine|single-ast-store", "only `ast_cache` holds Query values (fields holding ast::Query: %s)" % holders)
+    # lookup helpers: functions on the cache that return only clones of what LruCache::get / peek hands out
+    cache_readers = set()
+    for r in users:
+        hb = Body(F.mir(r["path"]), r)
+        if "ast::Query" not in hb.local_ty(0) or hb.calls_to(["parser::parse_query"]):
+            continue
+        payloads = [rv[2][0] for i, j, pl, rv, line, exp in hb.stmts() if pl[0] == 0 and rv[0] == "agg" and (rv[1].endswith("Option::Some") or rv[1].endswith("Result::Ok")) and rv[2] and rv[2][0][0] != "k"]
+        okr = bool(payloads)
+        for o_ in payloads:
+            srcs_ = [x[1] for x in hb.origins(o_[1][0], through_calls=lambda cc: [0] if cc.path.rsplit("::", 1)[-1] in ("clone", "branch", "unwrap", "deref") else None) if x[0] == "call"]
+            if not srcs_ or any(not ("LruCache" in c.path and c.path.rsplit("::", 1)[-1] in ("get", "peek", "get_mut")) for c in srcs_):
+                okr = False
+        if okr:
+            cache_readers.add(r["path"])
     for r in sorted(users, key=lambda x: x["path"]):
         b = Body(F.mir(r["path"]), r)
         if "ast::Query" not in b.local_ty(0) or not b.calls_to(["parser::parse_query"]):
@@ -180,7 +208,7 @@ def run(ctx, F, cg):
             if pl[0] == 0 and not pl[1] and rv[0] == "agg" and rv[1].endswith("Result::Ok") and rv[2] and rv[2][0][0] != "k":
                 og = b.origins(rv[2][0][1][0], through_calls=lambda cc: [0] if cc.path.rsplit("::", 1)[-1] in ("clone", "branch", "unwrap", "deref") else None)
                 srcs = [o[1] for o in og if o[0] == "call"]
-                bad = [c for c in srcs if not (c.path.endswith("parser::parse_query") or ("LruCache" in c.path and c.path.rsplit("::", 1)[-1] in ("get", "peek", "get_mut")))]
+                bad = [c for c in srcs if not (c.path.endswith("parser::parse_query") or c.path in cache_readers or ("LruCache" in c.path and c.path.rsplit("::", 1)[-1] in ("get", "peek", "get_mut")))]
                 good = [c for c in srcs if c not in bad]
                 inst = "%s|returned-ast|%d" % (short, k)
                 k += 1
